@@ -333,6 +333,9 @@ func (rt *runtimeState) reschedule(from *Goroutine) {
 			}
 		}
 		evs := rt.enabledEvents()
+		if ex.cfg.PromptTime && len(alts) > 0 {
+			evs = nil // time stands still while anybody can run
+		}
 		for _, e := range evs {
 			alts = append(alts, e)
 		}
